@@ -102,6 +102,62 @@ fn merged(n: &Node) -> Result<Node, ()> {
     }
 }
 
+/// Structured family: three sources with a colliding key and one private key each, combined through
+/// every nesting of merge sequences (inline and aliased, one or several `<<` entries), so that the
+/// precedence is observable at every level.
+fn precedence_family() -> Vec<Node> {
+    let p = |t: &str| Node::plain(t);
+    let src = |i: usize, anchor: bool| Node::Map {
+        entries: vec![(p("k"), p(&i.to_string())), (p(["pa", "pb", "pc"][i]), p(&(10 + i).to_string())), (p("shared2"), p(&(20 + i).to_string()))],
+        flow: true,
+        anchor: if anchor { Some(format!("s{i}")) } else { None },
+    };
+    let seq = |items: Vec<Node>| Node::Seq { items, flow: true, tag: None, anchor: None };
+    let mut out = Vec::new();
+    for via_alias in [false, true] {
+        let s = |i: usize| if via_alias { Node::Alias(format!("s{i}")) } else { src(i, false) };
+        let shapes: Vec<Vec<Node>> = vec![
+            vec![seq(vec![s(0), s(1), s(2)])],
+            vec![seq(vec![seq(vec![s(0), s(1)]), s(2)])],
+            vec![seq(vec![s(0), seq(vec![s(1), s(2)])])],
+            vec![seq(vec![seq(vec![s(0)]), seq(vec![s(1)]), seq(vec![s(2)])])],
+            vec![seq(vec![seq(vec![seq(vec![s(0), s(1)])]), s(2)])],
+            vec![seq(vec![seq(vec![s(1), s(0)]), seq(vec![s(2), s(1)])])],
+            vec![s(0), s(1), s(2)],
+            vec![seq(vec![s(0), s(1)]), s(2)],
+            vec![s(0), seq(vec![s(1), s(2)])],
+            vec![seq(vec![s(2), s(2), s(0)]), seq(vec![])],
+        ];
+        for merge_values in shapes {
+            for own_first in [true, false] {
+                let mut entries: Vec<(Node, Node)> = Vec::new();
+                if own_first {
+                    entries.push((p("own"), p("o")));
+                }
+                for v in &merge_values {
+                    entries.push((p("<<"), v.clone()));
+                }
+                if !own_first {
+                    entries.push((p("pb"), p("own-overrides")));
+                }
+                let d = Node::Map { entries, flow: false, anchor: None };
+                let mut top = Vec::new();
+                if via_alias {
+                    for i in 0..3 {
+                        top.push((p(&format!("def{i}")), src(i, true)));
+                    }
+                }
+                top.push((p("d"), d));
+                out.push(Node::Map { entries: top, flow: false, anchor: None });
+            }
+        }
+    }
+    // a merge source that itself merges a nested sequence
+    let inner = Node::Map { entries: vec![(p("<<"), seq(vec![seq(vec![src(0, false), src(1, false)]), src(2, false)])), (p("mid"), p("m"))], flow: true, anchor: None };
+    out.push(Node::Map { entries: vec![(p("d"), Node::Map { entries: vec![(p("<<"), inner), (p("top"), p("t"))], flow: false, anchor: None })], flow: false, anchor: None });
+    out
+}
+
 fn targets() -> Vec<Ty> {
     let any = || Box::new(Ty::Any);
     vec![
@@ -127,9 +183,10 @@ pub fn run(ctx: &mut Ctx) {
     let mut rng = ctx.rng.fork();
     let tys = targets();
     let mut docs: Vec<(String, Option<Node>)> = HAND.iter().map(|s| (s.to_string(), None)).collect();
+    docs.extend(precedence_family().into_iter().map(|n| (docgen::render_doc(&n), Some(n))));
     let mut tries = 0;
     let want = if quick { 350 } else { 4000 };
-    while docs.len() < want + HAND.len() && tries < want * 20 {
+    while docs.len() < want + HAND.len() + 45 && tries < want * 20 {
         tries += 1;
         let mut cfg = GenCfg::default_for(if quick { 14 } else { 28 });
         cfg.merges = true;
